@@ -110,7 +110,7 @@ def sec_of(dt):
     return int((dt - datetime(1970, 1, 1)).total_seconds() // 1) if dt.tzinfo is None else int(dt.timestamp())
 
 
-dates31 = st.one_of(st.sampled_from([0, 1, 1_600_000_000, 2 ** 31 - 1]), st.integers(0, 2 ** 31 - 1))
+from ..container import dates31  # signed 32-bit second timestamps (also before 1970)
 comments = st.one_of(st.just(""), st.just("Generated by basicTDF"), specs.labels(256))
 
 
